@@ -199,9 +199,15 @@ SAFETY_STAGES = {
                  ("hostile-bytes-4", _saf(4, 1, "MaxDs12", "SigmaByte", "FillsQ")),
                  ("hostile-deep", _saf(2, 4, "MaxDs12", "SigmaTok", "FillsQ"))],
 }
+WRITER_Q = dict(K=2, Alpha="AlphaQ", WithReset="TRUE", AllCaps="TRUE")
+WRITER_T = dict(K=3, Alpha="AlphaQ", WithReset="TRUE", AllCaps="TRUE")
 EXTRA_STAGES = {
-    "C12": {"quick": [("reuse-nav", "MC_Nav.tla", "MC_Nav.cfg", _nav(4, 3, "ValsInt1", "NamesAB", "LookAB", "OpsReuse", "RootsOA"))],
-            "thorough": [("reuse-nav", "MC_Nav.tla", "MC_Nav.cfg", _nav(5, 3, "ValsMix", "NamesAB", "LookAB", "OpsReuse", "RootsOA"))]},
+    "C12": {"quick": [("reuse-nav", "MC_Nav.tla", "MC_Nav.cfg", _nav(4, 3, "ValsInt1", "NamesAB", "LookAB", "OpsReuse", "RootsOA")),
+                      ("writer-reset", "MC_Writer.tla", "MC_Writer.cfg", WRITER_Q)],
+            "thorough": [("reuse-nav", "MC_Nav.tla", "MC_Nav.cfg", _nav(5, 3, "ValsMix", "NamesAB", "LookAB", "OpsReuse", "RootsOA")),
+                         ("writer-reset", "MC_Writer.tla", "MC_Writer.cfg", WRITER_T)]},
+    "C09": {"quick": [("writer-latch", "MC_Writer.tla", "MC_Writer.cfg", WRITER_Q)],
+            "thorough": [("writer-latch", "MC_Writer.tla", "MC_Writer.cfg", WRITER_T)]},
 }
 
 
@@ -211,7 +217,7 @@ def check_safety(prop, tier, replay):
     t0 = time.time()
     stages = [product_stage(prop, name, "MC_Safety.tla", "MC_Safety.cfg", c) for name, c in SAFETY_STAGES[tier]]
     for name, mod, cfg, c in EXTRA_STAGES.get(prop, {}).get(tier, []):
-        stages.append(product_stage(prop, name, mod, cfg, c))
+        stages.append(product_stage(prop, name, mod, cfg, c, replayer="replay_writer" if mod == "MC_Writer.tla" else "replay_parser"))
     return finish(prop, tier, stages, t0, ASSUME_COMMON)
 
 
@@ -241,3 +247,31 @@ def check_verify(prop, tier, replay):
 
 
 REGISTRY["C02"] = check_verify
+
+
+# ------------------------------------------------------------ C04 / C05 -------
+WRITER_STAGES = {
+    "C04": {"quick":    [("calls-k2", WRITER_Q)],
+            "thorough": [("calls-k3", WRITER_T), ("calls-k2-ints", dict(K=2, Alpha="AlphaInts", WithReset="FALSE", AllCaps="TRUE"))]},
+    "C05": {"quick":    [("calls-k3", dict(K=3, Alpha="AlphaQ", WithReset="FALSE", AllCaps="FALSE")),
+                         ("calls-k3-ints", dict(K=3, Alpha="AlphaInts", WithReset="FALSE", AllCaps="FALSE"))],
+            "thorough": [("calls-k4", dict(K=4, Alpha="AlphaQ", WithReset="FALSE", AllCaps="FALSE")),
+                         ("calls-k4-ints", dict(K=4, Alpha="AlphaInts", WithReset="FALSE", AllCaps="FALSE"))]},
+}
+ASSUME_WRITER = [
+    "Layer I (spec/WriterImpl.tla) transcribes binson_writer.c; bound to the code by comparing the exact number of bytes stored (drift reported)",
+    "stored bytes are observed by running every behaviour over 0xAA and over 0x55 fill; ASan with an exact-size destination observes any byte beyond the capacity",
+    "payload lengths in the TLC alphabet are 0,1,2,127,128; longer payloads are covered by recorded traces",
+]
+
+
+def check_writer(prop, tier, replay):
+    if replay:
+        return replay_file(prop, replay, "replay_writer")
+    t0 = time.time()
+    stages = [product_stage(prop, name, "MC_Writer.tla", "MC_Writer.cfg", c, replayer="replay_writer") for name, c in WRITER_STAGES[prop][tier]]
+    return finish(prop, tier, stages, t0, ASSUME_WRITER)
+
+
+REGISTRY["C04"] = check_writer
+REGISTRY["C05"] = check_writer
